@@ -14,6 +14,9 @@ func (i *interpreter) hexOf(bs []value) []value {
 		for k := 14; k >= 0; k-- {
 			res = i.ts.Ite(i.ts.Eq(t, i.ts.BVConst(uint64(k), 4)), i.ts.BVConst(uint64(digits[k]), 8), res)
 		}
+		if res.Op != OConst {
+			i.hexNibs()[res] = t
+		}
 		return i.norm(res, types.Typ[types.Uint8])
 	}
 	for _, b := range bs {
